@@ -1094,16 +1094,102 @@ func (g *FnGen) prelude() string {
 // not mention it. Dropping assumptions can only make an obligation harder to prove, never unsound.
 var heavySymbols = []string{"memP_", "str-cat", "str-sub"}
 
-// slicedScript returns the script without assumptions about heavy symbols the goal does not use ("" if identical).
+// ufSymbols returns the uninterpreted function symbols (declare-fun with at least one argument) of the decls.
+func ufSymbols(decls []string) map[string]bool {
+	ufs := map[string]bool{}
+	for _, d := range decls {
+		for _, l := range strings.Split(d, "\n") {
+			l = strings.TrimSpace(l)
+			if !strings.HasPrefix(l, "(declare-fun ") {
+				continue
+			}
+			f := strings.Fields(l[len("(declare-fun "):])
+			if len(f) >= 2 && f[1] != "()" {
+				ufs[f[0]] = true
+			}
+		}
+	}
+	return ufs
+}
+
+// symbolsIn collects the members of ufs that occur as tokens of the SMT text s.
+func symbolsIn(s string, ufs map[string]bool, into map[string]bool) {
+	i := 0
+	for i < len(s) {
+		c := s[i]
+		if c == '(' || c == ')' || c == ' ' || c == '\n' || c == '\t' {
+			i++
+			continue
+		}
+		j := i
+		for j < len(s) && s[j] != '(' && s[j] != ')' && s[j] != ' ' && s[j] != '\n' && s[j] != '\t' {
+			j++
+		}
+		if ufs[s[i:j]] {
+			into[s[i:j]] = true
+		}
+		i = j
+	}
+}
+
+// irrelevantAxioms marks the top-level universally quantified assumptions (package axioms, used lemmas, the
+// definitions of mem) that speak about uninterpreted functions no other part of the obligation mentions,
+// directly or through a kept axiom. E-matching cannot instantiate them usefully and they only make the solver
+// give up with "incomplete quantifiers"; dropping assumptions is always sound ("unsat" stays conclusive).
+func irrelevantAxioms(assumes []string, rest []string, ufs map[string]bool) map[int]bool {
+	live := map[string]bool{}
+	for _, r := range rest {
+		symbolsIn(r, ufs, live)
+	}
+	type cand struct {
+		i    int
+		syms map[string]bool
+	}
+	var cands []cand
+	for i, a := range assumes {
+		if strings.HasPrefix(a, "(forall ") {
+			m := map[string]bool{}
+			symbolsIn(a, ufs, m)
+			if len(m) > 0 {
+				cands = append(cands, cand{i, m})
+				continue
+			}
+		}
+		symbolsIn(a, ufs, live)
+	}
+	drop := map[int]bool{}
+	for _, c := range cands {
+		drop[c.i] = true
+	}
+	for changed := true; changed; {
+		changed = false
+		for _, c := range cands {
+			if !drop[c.i] {
+				continue
+			}
+			for s := range c.syms {
+				if live[s] {
+					delete(drop, c.i)
+					for s2 := range c.syms {
+						live[s2] = true
+					}
+					changed = true
+					break
+				}
+			}
+		}
+	}
+	return drop
+}
+
+// slicedScript returns the script without assumptions about heavy symbols the goal does not use and without
+// axioms irrelevant to the obligation ("" if identical).
 func (g *FnGen) slicedScript(o *Oblig) string {
 	var drop []string
 	for _, h := range heavySymbols {
 		if !strings.Contains(o.Goal, h) {
 			drop = append(drop, h)
 		}
-	}
-	if len(drop) == 0 {
-		return ""
 	}
 	dropped := false
 	keep := func(a string) bool {
@@ -1115,6 +1201,24 @@ func (g *FnGen) slicedScript(o *Oblig) string {
 		}
 		return true
 	}
+	var kept []string
+	for _, a := range g.assumes[:o.nAssume] {
+		if keep(a) {
+			kept = append(kept, a)
+		}
+	}
+	guard := o.Guard
+	if guard == "" {
+		guard = "true"
+	}
+	rest := append(append([]string{}, o.Extra...), guard, o.Goal)
+	irrelevant := irrelevantAxioms(kept, rest, ufSymbols(g.decls))
+	if len(irrelevant) > 0 {
+		dropped = true
+	}
+	if !dropped {
+		return ""
+	}
 	var b strings.Builder
 	b.WriteString(g.prelude())
 	for _, d := range g.preludeX {
@@ -1125,27 +1229,21 @@ func (g *FnGen) slicedScript(o *Oblig) string {
 		b.WriteString(d)
 		b.WriteByte('\n')
 	}
-	for _, a := range g.assumes[:o.nAssume] {
-		if keep(a) {
-			b.WriteString("(assert ")
-			b.WriteString(a)
-			b.WriteString(")\n")
+	for i, a := range kept {
+		if irrelevant[i] {
+			continue
 		}
+		b.WriteString("(assert ")
+		b.WriteString(a)
+		b.WriteString(")\n")
 	}
 	for _, x := range o.Extra {
 		b.WriteString("(assert ")
 		b.WriteString(x)
 		b.WriteString(")\n")
 	}
-	guard := o.Guard
-	if guard == "" {
-		guard = "true"
-	}
 	fmt.Fprintf(&b, "(assert (not (=> %s %s)))\n", guard, o.Goal)
 	b.WriteString("(check-sat)\n")
-	if !dropped {
-		return ""
-	}
 	return b.String()
 }
 
